@@ -166,12 +166,28 @@ def generate(rng, n, tier="quick"):
                     k += 1
                     out.append((case, {"expect": [exp[0], exp[1] if exp[0] == "err" else enc(exp[1]), exp[2] if exp[0] == "err" else None],
                                        "plain": None if exp[0] == "err" else plain(exp[1]), "text": None if exp[0] == "err" else text_of(exp[1]), "form": form, "tpl": tpl, "strict": strict}))
+    # directed: the result of a macro-defined helper is written like any value – escaped in {{ }}, as it is in {{{ }}} / {{& }} –
+    # also when an argument comes from a subexpression calling a WRITING helper (whose output is captured), a value helper
+    # or another macro helper
+    cfg = {"escape": "html", "helpers": [{"name": "m_ident", "kind": "macro", "sig": sig_json("m_ident")}, {"name": "wr", "kind": "wr"}, {"name": "vr", "kind": "vret"}]}
+    for j, (tpl, exp) in enumerate([
+            ("{{{m_ident (wr \"<b>\")}}}", "<b>"), ("{{m_ident (wr \"<b>\")}}", "&lt;b&gt;"),
+            ("{{{m_ident (wr s)}}}|{{m_ident s}}", "<i>&|&lt;i&gt;&amp;"), ("{{{m_ident (vr s)}}}", "<i>&"), ("{{{m_ident (m_ident s)}}}", "<i>&"),
+            ("{{{m_ident (wr (wr s))}}}", "<i>&"), ("{{{m_ident (lookup this \"s\")}}}|{{{s}}}|{{s}}", "<i>&|<i>&|&lt;i&gt;&amp;"),
+            ("{{#each xs}}{{{m_ident (wr this)}}}{{m_ident this}}{{/each}}", "<&lt;>&gt;")]):
+        case = session(cfg, [], {"api": "render_template", "src": tpl}, {"s": "<i>&", "xs": ["<", ">"]})
+        case["id"] = "%s-w%02d" % (ID, j)
+        out.append((case, {"expect": ["text", exp, None], "plain": None, "text": exp, "form": "text", "tpl": tpl, "strict": False}))
     return out
 
 
 def oracle(case, meta, impl):
     l = last(impl)
     kind = meta["expect"][0]
+    if kind == "text":
+        if l.get("r") == "ok" and l.get("out") == meta["text"]:
+            return []
+        return ["%s: written %r, expected %r" % (meta["tpl"], l.get("out", l.get("reason")), meta["text"])]
     if kind == "err":
         reason, args = meta["expect"][1], meta["expect"][2]
         if l.get("r") == "rerr" and l.get("reason") == reason and (l.get("args") or [])[:2] == args:
